@@ -292,7 +292,7 @@ func (r *ref) enabled() []op {
 				n := pagesOf(r.distBytes(d), r.P)
 				ok := true
 				for _, g := range gl {
-					if r.capacity(g) < n { // conservative: every target could take the whole range
+					if capOf(g) < n { // conservative: every target could take the whole range
 						ok = false
 					}
 				}
@@ -449,10 +449,27 @@ func (s *sut) stateFacts(sn *snapshot, r *ref) map[string]fact {
 			continue
 		}
 		fr := p.PAddr / P
+		// "inside the memory of the device recorded for it": the memory of a
+		// unified device is the union of its member GPUs' memories
 		inside := false
+		within := func(id int) bool {
+			for _, d := range sn.devs {
+				if d.id == id && d.typ != driver.VerifDeviceTypeUnifiedGPU && fr >= d.base && fr < d.base+d.n {
+					return true
+				}
+			}
+			return false
+		}
 		for _, d := range sn.devs {
-			if uint64(d.id) == p.DeviceID && d.typ != driver.VerifDeviceTypeUnifiedGPU && fr >= d.base && fr < d.base+d.n {
-				inside = true
+			if uint64(d.id) != p.DeviceID {
+				continue
+			}
+			if d.typ == driver.VerifDeviceTypeUnifiedGPU {
+				for _, g := range d.unified {
+					inside = inside || within(g)
+				}
+			} else {
+				inside = within(d.id)
 			}
 		}
 		if !inside {
